@@ -42,6 +42,12 @@ CHECKS = {
     "C14": ("exploration", "3.C14",
             "Registry histories over 5 value types x 7 entity kinds x a pool of 4 colliding names with 8 client handle slots: request/create_shared/create_persistent/create_private/get/exists/set_shared/set_persistent/set_name, handle copy/move/drop, clear_props, clear, mesh copy/assign/destroy; oracle = registry state-machine model (lookup results, same-storage identity, exceptions and nothing-changed, n_props/n_persistent_props, persistent=>shared=>named-unique), ASan for every destruction order, detached handles keep size and values.",
             "create_shared/persistent with the empty name are not generated."),
+    "C15": ("exploration", "3.C15",
+            "Tet-kernel histories (add via halffaces and via the kernel's vertex entry points, glue along faces/edges/vertices, rejected adds, deletions in all modes, swaps, collections, edge collapses): shape invariants (3 edges per face, 4 faces / 4 distinct vertices per cell); for every cell x halfface x halfedge: get_cell_vertices (4 forms), halfface_opposite_vertex / vertex_opposite_halfface inverse, tv_iter incl. circulator protocol; TetTopology for all 12 (halfface, start vertex) choices x 2 constructors plus the (cell, vertex) and (cell) constructors: four distinct vertices, 12 labelled halfedges join their labelled vertices, 20 labelled inner/outer halffaces have the labelled vertex cycle and belong to the cell (outer: opposite), get_label inverts the accessors, TriangleTopology agrees. collapse_edge on halfedges that satisfy the link condition (computed on the model's simplicial closure): resulting oriented cell set == model (cells without both a and b, a->b), returned handle designates b (uid tag), in all four deletion modes.",
+            "Collapse candidates exclude meshes with duplicate edges/faces; after a collapse the model is re-synchronised from the mesh (entity-level renumbering of a collapse is not specified), property values are compared again from then on."),
+    "C16": ("exploration", "3.C16",
+            "Hex-kernel histories: hexes on a 3x3x3 integer lattice (blocks of arbitrary shape with shared faces, interior edges, sheets) and free-standing/glued hexes, built through halfface lists (canonical, and permuted with topology check) and through the kernel's 8-vertex entry point; deletions/GC/swaps included. Oracle from the class documentation: 4 edges per face, 6 faces / 8 distinct vertices per cell, halffaces 2k/2k+1 vertex-disjoint, walking the first halfface meets 2,4,3,5 cyclically, orientation / opposite_halfface_handle_in_cell / x,y,z accessors / get_oriented_halfface agree with the list, orthogonal_orientation == cross product of signed axes, hex_vertices first four / last four / 0-4,1-7,2-6,3-5 edge pattern, csc_iter == neighbours across the four orthogonal halffaces, hfshf_iter and adjacent_halfface_on_sheet == matching halffaces of those neighbours, circulator protocol for hv/csc.",
+            "Irregular neighbourhoods where 'the matching halfface' is not unique are skipped and counted (c16_irregular_sheet_skipped)."),
     "C17": ("exploration", "3.C17",
             "Swapper client swaps any two slots of each kind (same, adjacent, sharing a super-entity, deferred-deleted, first/last) under every incidence subset; the model transposes two slots and the SUT must equal it exactly (no renumbering fallback): definitions, flags, every property incl. side-by-side half-entity values; swap twice == identity is implied by the model and checked op by op.",
             "Incidence caches are checked by C01's battery in the C01/C12 checks, not here."),
@@ -49,8 +55,6 @@ CHECKS = {
 NOT_YET = {
     "C06": "check not built yet in this round (planned: STOR world round trips + independent OVMB codec)",
     "C07": "check not built yet in this round (planned: STOR world fault injection into stored bytes)",
-    "C15": "check not built yet in this round (planned: HIST tet-kernel battery)",
-    "C16": "check not built yet in this round (planned: HIST hex-kernel battery)",
     "C18": "check not built yet in this round (planned: STOR fault enumeration)",
     "C20": "check not built yet in this round (planned: FROZEN world)",
 }
